@@ -1,4 +1,5 @@
 //! inject: src/dap/yadap/session/control.rs
+//! t7: src/dap/yadap/session/mod.rs, src/dap/yadap/session/breakpoint.rs, src/dap/yadap/session/control.rs, src/dap/yadap/session/other.rs, src/dap/yadap/session/frame.rs
 //
 // C13 — hit bookkeeping: which breakpoint record a stop address belongs to, and the hit counter
 // that hitCondition is compared with; condition truthiness of literals.
@@ -53,11 +54,11 @@ fn mk_record(id: i64, a: Address, b: Option<Address>, hits: u64) -> BreakpointRe
 //@ obligation: H-C13-c
 //@ tier: quick
 //@ encodes: DebugSession::{new, with_breakpoint_record_mut, record_breakpoint_hit}
-//@ symbolic: addresses (value and Global/Relocated kind) of two function-breakpoint records (the first with two locations) and one instruction-breakpoint record, their hit counters (full u64), the stop address
-//@ bounds: 3 records in the two Vec-backed lists, by-source map empty (instance); unwind 5
+//@ symbolic: addresses (value and Global/Relocated kind) of two function-breakpoint records (the first with two locations), one instruction-breakpoint record and one source-breakpoint record, their hit counters (full u64), the stop address
+//@ bounds: 4 records: two function breakpoints (one with two locations), one instruction breakpoint, one source breakpoint under one path (instance); unwind 5
 //@ oracle: the record charged is the first one (function list, then instruction list) whose address list contains the stop address, compared with kind; exactly that record's hit_count grows by one (saturating) and the returned hit info carries its id and new count; no record matches => None and no counter changes
-//@ stubs: RandomState::new -> fixed keys; Backtrace::capture -> disabled
-//@ outside: records under breakpoints_by_source (HashMap<String, _>, see c13_record_lookup_by_source), how records get their addresses (Debugger::set_breakpoint_*), should_skip_breakpoint (needs a live Debugger)
+//@ stubs: HashMap/HashSet -> association list (T7, session files); Backtrace::capture -> disabled
+//@ outside: more than one source path, how records get their addresses (Debugger::set_breakpoint_*), should_skip_breakpoint (needs a live Debugger)
 //@ timeout: 1200
 #[kani::proof]
 #[kani::stub(std::backtrace::Backtrace::capture, no_backtrace)]
@@ -66,35 +67,41 @@ fn mk_record(id: i64, a: Address, b: Option<Address>, hits: u64) -> BreakpointRe
 fn c13_record_lookup() {
     let io: Arc<Mutex<dyn DapTransport>> = Arc::new(Mutex::new(NullTransport));
     let mut s = super::super::DebugSession::new(io);
-    let a: [Address; 4] = [any_addr(), any_addr(), any_addr(), any_addr()];
-    let h: [u64; 3] = kani::any();
+    let a: [Address; 5] = [any_addr(), any_addr(), any_addr(), any_addr(), any_addr()];
+    let h: [u64; 4] = kani::any();
     s.function_breakpoints.push(mk_record(11, a[0], Some(a[1]), h[0]));
     s.function_breakpoints.push(mk_record(12, a[2], None, h[1]));
     s.instruction_breakpoints.push(mk_record(13, a[3], None, h[2]));
+    let mut by_src = Vec::with_capacity(1);
+    by_src.push(mk_record(14, a[4], None, h[3]));
+    s.breakpoints_by_source.insert(String::from("a.rs"), by_src);
     let stop = any_addr();
-    let want = if stop == a[0] || stop == a[1] {
+    // lookup order of the session: source breakpoints, then function, then instruction breakpoints
+    let want = if stop == a[4] {
+        3
+    } else if stop == a[0] || stop == a[1] {
         0
     } else if stop == a[2] {
         1
     } else if stop == a[3] {
         2
     } else {
-        3
+        4
     };
     let got = s.record_breakpoint_hit(stop);
-    let now = [s.function_breakpoints[0].hit_count, s.function_breakpoints[1].hit_count, s.instruction_breakpoints[0].hit_count];
+    let now = [s.function_breakpoints[0].hit_count, s.function_breakpoints[1].hit_count, s.instruction_breakpoints[0].hit_count, s.breakpoints_by_source.get("a.rs").unwrap()[0].hit_count];
     match &got {
         None => {
-            bsv!(want == 3, "a stop at a recorded location finds its record");
-            bsv!(now[0] == h[0] && now[1] == h[1] && now[2] == h[2], "no counter changes when no record matches");
+            bsv!(want == 4, "a stop at a recorded location finds its record");
+            bsv!(now[0] == h[0] && now[1] == h[1] && now[2] == h[2] && now[3] == h[3], "no counter changes when no record matches");
         }
         Some(info) => {
-            bsv!(want < 3, "a stop elsewhere charges no record");
-            if want < 3 {
+            bsv!(want < 4, "a stop elsewhere charges no record");
+            if want < 4 {
                 bsv!(info.id == 11 + want as i64, "the record charged is the one holding the stop address");
                 bsv!(info.hit_count == h[want].saturating_add(1), "hit count grows by exactly one (saturating)");
                 let mut i = 0;
-                while i < 3 {
+                while i < 4 {
                     if i == want {
                         bsv!(now[i] == h[i].saturating_add(1), "the stored counter is the reported one");
                     } else {
@@ -107,7 +114,8 @@ fn c13_record_lookup() {
     }
     kani::cover!(want == 0 && stop == a[1] && stop != a[0], "second location of a multi-location record");
     kani::cover!(want == 2, "instruction breakpoint record");
-    kani::cover!(want == 3, "no record");
+    kani::cover!(want == 4, "no record");
+    kani::cover!(want == 3, "source breakpoint record");
     kani::cover!(matches!((stop, a[2]), (Address::Global(x), Address::Relocated(y)) if usize::from(x) == usize::from(y)), "same number, different address kind");
     kani::cover!(true, "BSV-END");
     std::mem::forget(got);
